@@ -532,3 +532,12 @@ def r5(ctx: Ctx) -> None:
     isstr = ("c", ("g", "isinstance"), (("p", 0), ("g", "str")), ())
     if not node or isstr not in g.facts_at(node[0].id):
         ctx.report(f.where, "identifier-non-string", "valid_identifier applies the pattern to a value not known to be a string", lineno=f.node.lineno)
+
+
+
+@rule("C05", "R6.geometry-primitives", "SHARED(C18)",
+      'the overlap test that refuses overlapping rectangles of a hard module is the exact one: Rectangle.overlap / area_overlap / area satisfy the C18 rules -- evaluated for the helpers the loader calls', floor=6)
+def shared_geometry(ctx: Ctx) -> None:
+    from . import C18 as _c18
+    from .common import support
+    support(ctx, [_c18.r1, _c18.r3, _c18.r4, _c18.r6], {"Rectangle.overlap", "Rectangle.area_overlap", "Rectangle.area", "Rectangle.bounding_box"})
